@@ -470,7 +470,7 @@ def pick_res(r, rows):
 
 def gen_cases(ctx, nf=None):
     r = ctx.rng
-    n = nf or ctx.budget(110, 1500)
+    n = nf or ctx.budget(200, 1500)
     for k in range(n):
         rows, meta = G.rand_forest(r, nmax=10 if k % 3 == 0 else 26, allow_zero_edges=(k % 4 == 0))
         ids = [rw['id'] for rw in rows]
@@ -568,6 +568,64 @@ def run(ctx, be=None):
             m = case['meta']
             ctx.count('shape', m['shape']); ctx.count('labeling', m['labeling']); ctx.count('kind', kind)
             RUNNERS[kind](ctx, case, be)
+
+
+def _norm(what):
+    import re
+    return re.sub(r'[-+]?\d[\d./e+-]*', '#', what)
+
+
+def _drop_leaf(case, nid):
+    rows = case['rows']
+    if len(rows) <= 2 or any(r['parent'] == nid for r in rows) or case.get('soma') == nid:
+        return None
+    c = {k: v for k, v in case.items() if not k.startswith('_')}
+    c['rows'] = [r for r in rows if r['id'] != nid]
+    for k in ('pres', 'connectors'):
+        if c.get(k):
+            c[k] = [i for i in c[k] if i != nid]
+            if not c[k] and k == 'connectors':
+                return None
+    if c.get('tags'):
+        c['tags'] = {k: [i for i in v if i != nid] for k, v in c['tags'].items()}
+        if not all(c['tags'].values()):
+            return None
+    for k in ('radii', 'mapcol'):
+        if c.get(k):
+            c[k] = {a: b for a, b in c[k].items() if a != str(nid)}
+    return c
+
+
+def shrink(ctx, f):
+    """Drop leaf nodes one at a time while the same oracle failure persists."""
+    from .common import Ctx
+    case = dict(f['case'])
+    kind = case.get('kind')
+    if kind not in RUNNERS:
+        return f
+    sub = Ctx(ctx.prop, ctx.tier, ctx.seed)
+    sub.drv = ctx.drv
+    sub.known = []
+    best, want = f, _norm(f['what'])
+    progress = True
+    while progress:
+        progress = False
+        for r in list(case['rows']):
+            c2 = _drop_leaf(case, r['id'])
+            if c2 is None:
+                continue
+            sub.failures = []
+            try:
+                RUNNERS[kind](sub, {k: v for k, v in c2.items() if k != 'kind'}, case.get('be'))
+            except Exception:
+                continue
+            hit = [x for x in sub.failures if x['kind'] == 'oracle' and _norm(x['what']) == want]
+            if hit:
+                case = dict(c2, kind=kind)
+                best = dict(hit[0], case=case)
+                progress = True
+                break
+    return best
 
 
 def replay(ctx, rp):
